@@ -1,9 +1,49 @@
-//! stub — not built yet
+//! C08 — Internet checksums are computed correctly, emitted valid and enforced.
+//!
+//! (a) `smoltcp::wire::checksum::{data, combine, pseudo_header*}` against an independent RFC 1071
+//!     reference, bounded-exhaustive over length x alignment x content classes (`cksum/parta.rs`);
+//! (b) every frame a real `Interface` emits in a scenario suite verifies under the independent
+//!     offsets-only extractor/verifier of `cksum/wirex.rs` (`cksum/partb.rs`);
+//! (c) every single-/double-bit corruption of valid packets whose checksum then fails under the
+//!     independent verifier must have no effect on sockets or replies (`cksum/partc.rs`).
+
+mod parta;
+mod partb;
+mod partc;
+mod wirex;
+mod world;
+
 use crate::core::*;
-pub fn run(_tier: Tier) -> i32 {
-    eprintln!("harness not built yet");
-    2
+use serde_json::json;
+
+pub fn run(tier: Tier) -> i32 {
+    let mut rep = Report::new("C08", tier);
+    rep.assumptions.push("reference = u64 accumulation of big-endian 16-bit words, odd byte zero padded, end-around-carry fold (cksum/wirex.rs); trusted".into());
+    rep.assumptions.push("0x0000 and 0xffff are the same one's-complement number: a difference only in zero representation is counted, not reported".into());
+    rep.assumptions.push("content space of checksum::data is covered by basis patterns (zeros, 0xFF saturation, counting, one-hot at every position), not all 2^(8n) contents: enumeration, not a linearity proof".into());
+    rep.assumptions.push("(c): 'effect' = Debug image of the SocketSet differs or a frame is emitted; interface-internal state (neighbor cache, reassembly buffers) is not observed; raw sockets (IP level, see all IP payloads by design) are not part of the socket set".into());
+    rep.assumptions.push("(c): a UDP length field that disagrees with the IP length makes the checksum 'wrong' only if it fails under both the RFC 768 (UDP length) and the IP-length interpretation; packets that cannot be delimited are not asserted".into());
+    let t = std::time::Instant::now();
+    parta::run(&mut rep, tier);
+    let ta = t.elapsed().as_secs_f64();
+    partb::run(&mut rep, tier);
+    let tb = t.elapsed().as_secs_f64();
+    partc::run(&mut rep, tier);
+    let tc = t.elapsed().as_secs_f64();
+    eprintln!("C08 part wall times: (a) {:.1}s (b) {:.1}s (c) {:.1}s", ta, tb - ta, tc - tb);
+    rep.cov("rule", json!("states = distinct inputs evaluated: (a) (length, alignment, content) tuples, combine tuples, pseudo-header tuples; (b) scenario instances (medium, capabilities, kind, version, size, pattern); (c) distinct packets (base or mutant) delivered. transitions = evaluations of smoltcp code: checksum calls in (a), Interface::poll calls in (b)/(c)"));
+    rep.finish()
 }
-pub fn replay(_art: &serde_json::Value) -> i32 {
-    2
+
+pub fn replay(art: &serde_json::Value) -> i32 {
+    let r = &art["replay"];
+    match r["part"].as_str().unwrap_or("") {
+        "a-data" | "a-combine" | "a-pseudo" => parta::replay(r),
+        "b" => partb::replay(r),
+        "c" => partc::replay(r),
+        other => {
+            eprintln!("unknown replay part {:?}", other);
+            2
+        }
+    }
 }
